@@ -1060,6 +1060,400 @@ def work_flow(item, res):
 
 
 # ---------------------------------------------------------------------------------------------------------
+# half 1b: time-locked pay-to-script-hash outputs spent through spend_time_lock + sign(extra_keys)
+# ---------------------------------------------------------------------------------------------------------
+
+TIMELOCK_HEIGHTS = {
+    # one per script-number width: 1 byte, 2 bytes with sign padding, 3 bytes, the main-net fixture's height,
+    # 4 bytes (time stamp range), 5 bytes (largest lock time)
+    'quick': [100, 128, 70000, 717738, 500_000_000, 0xFFFFFFFF],
+    'thorough': [17, 100, 127, 128, 255, 256, 32767, 32768, 70000, 717738, 8388607, 8388608, 499_999_999, 500_000_000,
+                 0x7FFFFFFF, 0x80000000, 0xFFFFFFFF],
+}
+EXTRA_KEY_IDS = {'quick': ['e_hash', 'e_privlz', 'e_publz'], 'thorough': ['e_hash', 'e_privlz', 'e_publz', 'e_one', 'e_nm1',
+                                                                         'e_hash2']}
+
+
+def extra_secret(kid):
+    from refs import secp256k1 as ec
+    if kid == 'e_privlz':
+        return (1 << 240) + 5
+    if kid == 'e_publz':
+        return key_cache()['channel_secret_publz']
+    if kid == 'e_one':
+        return 1
+    if kid == 'e_nm1':
+        return ec.N - 1
+    return int.from_bytes(hashlib.sha256(b'verif c04 time lock key ' + kid.encode()).digest(), 'big') % (ec.N - 1) + 1
+
+
+def timelock_cases(wallet_id, tier, n_slots):
+    cases = []
+
+    def case(ins, extras, shape, v=2, outs='two'):
+        cases.append({'mode': 'timelock', 'w': wallet_id, 'ins': [list(i) for i in ins], 'extras': list(extras),
+                      'shape': shape, 'v': v, 'outs': outs})
+
+    heights, kids = TIMELOCK_HEIGHTS[tier], EXTRA_KEY_IDS[tier]
+    # A: the wallet's own entry point Transaction.spend_time_lock(): every height x every key
+    for ht in heights:
+        for kid in kids:
+            case([('tl', kid, ht)], [kid], 'spend_time_lock')
+    # B: hand-built transactions mixing the time-locked input with ordinary ones
+    for ht in (heights[1], heights[-2]):
+        for kid in kids[:2]:
+            for v in (1, 2):
+                case([('tl', kid, ht)], [kid], 'alone', v)
+                case([('tl', kid, ht), ('p2pkh', 0)], [kid], 'mixed', v)
+                case([('p2pkh', 1 % n_slots), ('tl', kid, ht)], [kid], 'mixed', v)
+                case([('claim', 2 % n_slots), ('tl', kid, ht), ('p2pkh', 0)], [kid], 'mixed', v)
+                case([('tl', kid, ht), ('claim_big', 3 % n_slots)], [kid], 'mixed', v, 'all')
+                case([('tl', kid, ht), ('tl', kid, heights[0])], [kid], 'two-locks-one-key', v)
+    # C: the key is picked out of extra_keys by address
+    case([('tl', kids[1], heights[0])], [kids[0], kids[1]], 'decoy-key-first')
+    case([('tl', kids[0], heights[0]), ('tl', kids[1], heights[2])], [kids[0], kids[1]], 'two-locks-two-keys')
+    return cases
+
+
+def run_timelock_case(h, spec, res):
+    from collections import OrderedDict
+    from lbry.wallet import Transaction, Input, Output
+    from lbry.wallet.script import OutputScript
+    from lbry.wallet.bip32 import PrivateKey
+    from refs import btc_tx, sighash, secp256k1 as ec
+    log = []
+    res.count('evaluations')
+    ins = spec['ins']
+    n = len(ins)
+    keys = {kid: PrivateKey.from_bytes(h.ledger, extra_secret(kid).to_bytes(32, 'big')) for kid in spec['extras']}
+    extra = OrderedDict((k.address, k) for k in keys.values())
+    spent, prev, redeems = [], [], []
+    for j, d in enumerate(ins):
+        outs = [make_spent('p2pkh', FOREIGN_HASH, 5000 + i, i) for i in range(j)]
+        if d[0] == 'tl':
+            _, kid, height = d
+            redeem = sighash.timelock_script(height, sighash.hash160(ec.pubkey_of(extra_secret(kid))))
+            txo = Output(2 * COIN + j, OutputScript(source=sighash.p2sh_script(sighash.hash160(redeem))))
+        else:
+            redeem = None
+            pkh = h.ledger.address_to_hash160(h.slots[d[1]]['address'])
+            txo = make_spent(d[0], pkh, 2 * COIN + j, j)
+        ftx = _funding_tx(outs + [txo], j)
+        spent.append(txo)
+        redeems.append(redeem)
+        prev.append((btc_tx.sha256d(ftx.raw), j, btc_tx.decode(ftx.raw)['outputs'][j]['script']))
+    base = {'kind': 'input-signature', 'spent_kind': 'p2sh-timelock', 'shape': spec['shape'], 'n_in': n}
+    try:
+        if spec['shape'] == 'spend_time_lock':
+            tx = h.run(Transaction.spend_time_lock(spent[0], redeems[0], h.accounts[0]))
+        else:
+            inputs = []
+            for txo, redeem in zip(spent, redeems):
+                if redeem is None:
+                    inputs.append(Input.spend(txo))
+                else:
+                    txi = Input.spend_time_lock(txo, redeem)
+                    txi.sequence = 0xFFFFFFFE
+                    inputs.append(txi)
+            tx = Transaction(version=spec['v'], locktime=max(d[2] for d in ins if d[0] == 'tl'))
+            tx.add_inputs(inputs).add_outputs(make_outputs(spec['outs']))
+        pre = btc_tx.decode(tx.raw)
+        h.run(tx.sign(list(h.accounts), extra))
+    except Exception as e:   # noqa - every key needed was supplied
+        res.violation(dict(base, why=f'sign-raised:{type(e).__name__}'),
+                      f'spending a time-locked output ({spec["shape"]}) raised {type(e).__name__}: {e}', spec)
+        return f'raised {e!r}'
+    res.count('executions')
+    post = btc_tx.decode(tx.raw)
+    if [(i['prev_hash'], i['prev_index'], i['sequence']) for i in pre['inputs']] != \
+            [(i['prev_hash'], i['prev_index'], i['sequence']) for i in post['inputs']] or pre['outputs'] != post['outputs'] \
+            or (pre['version'], pre['locktime']) != (post['version'], post['locktime']):
+        res.violation(dict(base, why='signing-changed-transaction'), 'signing changed something other than input scripts', spec)
+    if [(i['prev_hash'], i['prev_index']) for i in post['inputs']] != [(p[0], p[1]) for p in prev]:
+        res.violation(dict(base, why='outpoint-mismatch'), 'inputs do not reference the outputs they spend', spec)
+        return 'outpoint mismatch'
+    for i, d in enumerate(ins):
+        res.count('inputs_verified')
+        if d[0] == 'tl':
+            f = sighash.verify_p2sh_timelock_input(post, i, prev[i][2], ec)
+            kind = 'p2sh-timelock'
+            if f['ok'] and f['redeem'] != redeems[i]:
+                f.update(ok=False, why='the input carries a different redeem script than the one handed in',
+                         code='redeem-script-replaced')
+            if f['ok'] and f['pubkey'] != ec.pubkey_of(extra_secret(d[1])):
+                f.update(ok=False, why='signed with a key other than the one the redeem script names', code='wrong-key')
+        else:
+            f = sighash.verify_p2pkh_input(post, i, prev[i][2], ec)
+            kind = d[0]
+        log.append(f"input {i} ({kind}): {'ok' if f['ok'] else f['why']}")
+        if not f['ok']:
+            others = {ec.pubkey_of(extra_secret(k)) for k in spec['extras'] if d[0] == 'tl' and k != d[1]}
+            if d[0] == 'tl' and f['code'] == 'pubkey-hash-mismatch' and f.get('pubkey') in others:
+                # the input was signed with another entry of extra_keys than the one whose address the redeem script names
+                res.violation({'kind': 'input-signature', 'why': 'extra-key-not-selected-by-address',
+                               'spent_kind': 'p2sh-timelock'},
+                              f"{spec['shape']}: input {i} (time lock for key {d[1]}) was signed with a different entry of "
+                              f"extra_keys {spec['extras']}: {f['why']}", spec)
+            else:
+                res.violation(dict(base, why=f['code'], position=i, spent_kind=kind),
+                              f"{spec['shape']}: input {i} ({kind}): {f['why']}", spec)
+            continue
+        if d[0] == 'tl':
+            res.witness('time_locked_script_hash_input_verified')
+            if len(spec['extras']) > 1:
+                res.witness('time_lock_key_selected_among_several_extra_keys')
+            res.witness('lock_height_script_number_of_%d_bytes' % len(sighash.script_num(d[2])))
+            if f['pubkey'][1] == 0:
+                res.witness('time_lock_key_pubkey_with_leading_zero_byte')
+            if extra_secret(d[1]) < (1 << 248):
+                res.witness('time_lock_key_private_key_with_leading_zero_byte')
+            if spec['shape'] == 'spend_time_lock':
+                if post['locktime'] != d[2] or post['inputs'][i]['sequence'] == 0xFFFFFFFF:
+                    res.tally('interpretation_only:spend_time_lock_locktime_or_sequence_not_final_for_cltv')
+            if n > 1 and any(x[0] != 'tl' for x in ins):
+                res.witness('time_locked_input_mixed_with_ordinary_inputs')
+    res.distinct_add('nontrivial', ('timelock', tuple(tuple(d) for d in ins), tuple(spec['extras']), spec['shape'], spec['v']))
+    return '\n'.join(log)
+
+
+def work_timelock(item, res):
+    _, wallet_id, tier, lo, hi = item
+    with SignH(wallet_id, res) as h:
+        cases = timelock_cases(wallet_id, tier, len(h.slots))[lo:hi]
+        for spec in cases:
+            run_timelock_case(h, spec, res)
+        if lo == 0 and cases:
+            res.sample({'timelock_case': cases[0]})
+
+
+# ---------------------------------------------------------------------------------------------------------
+# half 2b: validation histories - the verdict depends only on the arguments of the call
+# ---------------------------------------------------------------------------------------------------------
+
+# channel txo id -> (script kind, key id, channel whose claim id it keeps | None)
+HIST_CHANNELS = {
+    'X1': ('claim', 'K1', None),     # the original channel; its claim id is I
+    'X2': ('update', 'K2', 'X1'),    # channel update: same claim id I, NEW signing key (rotation)
+    'X3': ('update', 'K1', 'X1'),    # channel update: same claim id I, same key
+    'Y1': ('claim', 'K1', None),     # a different channel (id J) that uses the same key as X1
+    'Y2': ('claim', 'K3', None),     # an unrelated channel
+    'X4': ('update', 'K3', 'X1'),    # second rotation
+}
+# signed object id -> (kind, signer)
+HIST_CLAIMS = {'S1': ('stream', 'X1'), 'S2': ('stream', 'X2'), 'S3': ('stream', 'Y1'), 'S4': ('stream', 'Y2'),
+               'S5': ('support', 'X2'), 'S6': ('stream', 'X4')}
+HIST_PLAN = {   # (claims, channels, sequence length)
+    'quick': (['S1', 'S2', 'S3'], ['X1', 'X2', 'X3', 'Y1'], 3),
+    'thorough': (['S1', 'S2', 'S3', 'S4', 'S5', 'S6'], ['X1', 'X2', 'X3', 'Y1', 'Y2', 'X4'], 3),
+}
+
+
+def hist_secret(kid):
+    from refs import secp256k1 as ec
+    return int.from_bytes(hashlib.sha256(b'verif c04 history key ' + kid.encode()).digest(), 'big') % (ec.N - 1) + 1
+
+
+def build_history_world():
+    """Deterministic set of channel txos (some sharing a claim id, some sharing a key) and of objects signed by them.
+    -> {'channels': {id: (txo, raw)}, 'claims': {id: (txo, raw)}}"""
+    from lbry.wallet import Transaction, Input, Output, Ledger
+    from lbry.wallet.bip32 import PrivateKey
+    from lbry.schema.claim import Claim
+    channels = {}
+    for cid, (kind, kid, base) in HIST_CHANNELS.items():
+        key = PrivateKey.from_bytes(Ledger, hist_secret(kid).to_bytes(32, 'big'))
+        claim = Claim()
+        claim.channel.title = cid
+        pkh = hashlib.new('ripemd160', b'hist' + cid.encode()).digest()
+        if kind == 'claim':
+            txo = Output.pay_claim_name_pubkey_hash(CENT, '@hist' + cid, claim, pkh)
+        else:
+            txo = Output.pay_update_claim_pubkey_hash(CENT, '@hist' + base, channels[base][0].claim_id, claim, pkh)
+        txo.set_channel_private_key(key)
+        tx = _funding_tx([txo], 200 + len(channels))
+        channels[cid] = (txo, tx.raw)
+    claims = {}
+    for sid, (kind, signer) in HIST_CLAIMS.items():
+        pkh = hashlib.new('ripemd160', b'hist' + sid.encode()).digest()
+        if kind == 'stream':
+            txo = Output.pay_claim_name_pubkey_hash(CENT, 'hist-' + sid, _claim('small', len(claims)), pkh)
+        else:
+            txo = Output.pay_support_data_pubkey_hash(CENT, 'hist', CLAIM_ID_2, _support('history ' + sid), pkh)
+        mine = make_spent('p2pkh', bytes(range(120, 140)), COIN + len(claims), 0)
+        _funding_tx([mine], 300 + len(claims))
+        tx = Transaction().add_inputs([Input.spend(mine)]).add_outputs([txo])
+        txo.sign(channels[signer][0])
+        tx._reset()
+        claims[sid] = (txo, tx.raw)
+    return {'channels': channels, 'claims': claims}
+
+
+def hist_reference(world):
+    """Reference verdict for every (signed object, channel txo): ECDSA over the documented digest (first input
+    outpoint || channel id embedded in the object || message) with the key carried by the channel txo passed in.
+    -> {(sid, cid): (verdict, class)}; class = 'signer' | 'same-id-same-key' | 'same-key-other-id' | 'other'."""
+    from refs import btc_tx, secp256k1 as ec
+    table = {}
+    ids = {cid: txo.claim_hash for cid, (txo, _) in world['channels'].items()}
+    for sid, (_, raw) in world['claims'].items():
+        off, ln = claim_blob_offset(raw)
+        payload = raw[off:off + ln]
+        assert payload[0] == 1
+        first = btc_tx.decode(raw)['inputs'][0]
+        digest = hashlib.sha256(first['prev_hash'] + first['prev_index'].to_bytes(4, 'little') + payload[1:21]
+                                + payload[85:]).digest()
+        r, s = ec.compact_parse(payload[21:85])
+        signer = HIST_CLAIMS[sid][1]
+        for cid in world['channels']:
+            pub = ec.pubkey_of(hist_secret(HIST_CHANNELS[cid][1]))
+            verdict = ec.ecdsa_verify(ec.decode_point(pub), digest, r, s)
+            same_key = HIST_CHANNELS[cid][1] == HIST_CHANNELS[signer][1]
+            same_id = ids[cid] == payload[1:21]
+            cls = 'signer' if cid == signer else ('same-id-same-key' if same_key and same_id else
+                                                 ('same-key-other-id' if same_key else 'other'))
+            assert verdict == same_key
+            table[(sid, cid)] = (verdict, cls)
+    return table
+
+
+def _hist_run(arg):
+    """Runs one sequence of is_signed_by calls on the real code (in a forked child: no state is shared with any other
+    sequence).  mode 'obj': the same Output objects are reused by all calls; 'wire': both sides re-parsed per call."""
+    from lbry.wallet import Transaction, Ledger
+    world, mode, seq = arg
+    out = []
+    for sid, cid in seq:
+        try:
+            if mode == 'obj':
+                claim, channel = world['claims'][sid][0], world['channels'][cid][0]
+            else:
+                claim = Transaction(world['claims'][sid][1]).outputs[0]
+                channel = Transaction(world['channels'][cid][1]).outputs[0]
+            out.append(bool(claim.is_signed_by(channel, Ledger)))
+        except Exception as e:   # noqa - an exception is a refusal
+            out.append(f'exc:{type(e).__name__}')
+    return out
+
+
+def _forked(fn, arg):
+    """fn(arg) in a forked child; the JSON-able result comes back through a pipe."""
+    r, w = os.pipe()
+    pid = os.fork()
+    if pid == 0:
+        code = 1
+        try:
+            os.close(r)
+            data = json.dumps(fn(arg)).encode()
+            while data:
+                data = data[os.write(w, data):]
+            code = 0
+        finally:
+            os._exit(code)
+    os.close(w)
+    chunks = []
+    while True:
+        b = os.read(r, 65536)
+        if not b:
+            break
+        chunks.append(b)
+    os.close(r)
+    _, status = os.waitpid(pid, 0)
+    if status != 0 or not chunks:
+        raise RuntimeError(f'forked execution failed (status {status}) for {arg[1:]!r:.200}')
+    return json.loads(b''.join(chunks))
+
+
+def _hist_root(cid):
+    """The channel whose claim id this channel txo carries."""
+    return HIST_CHANNELS[cid][2] or cid
+
+
+def _hist_tags(seq, i):
+    """How the earlier calls of the sequence relate to call i (names the history shape in the signature)."""
+    sid, cid = seq[i]
+    tags = set()
+    for psid, pcid in seq[:i]:
+        same_key = HIST_CHANNELS[pcid][1] == HIST_CHANNELS[cid][1]
+        if pcid == cid:
+            tags.add('same-channel-txo-before')
+        elif _hist_root(pcid) == _hist_root(cid):
+            tags.add('same-claim-id-same-key-before' if same_key else 'same-claim-id-other-key-before')
+        elif same_key:
+            tags.add('same-key-other-claim-id-before')
+        else:
+            tags.add('unrelated-channel-before')
+        if psid == sid:
+            tags.add('same-object-before')
+    for t in ('same-claim-id-other-key-before', 'same-object-before', 'same-channel-txo-before',
+              'same-key-other-claim-id-before', 'same-claim-id-same-key-before', 'unrelated-channel-before'):
+        if t in tags:
+            return t          # the most telling relation names the history shape
+    return 'first-call'
+
+
+def judge_history(res, seq, mode, got, expected, table):
+    """expected[(sid, cid)] = the verdict of that single call in a fresh process (checked against the reference)."""
+    log = []
+    for i, ((sid, cid), g) in enumerate(zip(seq, got)):
+        res.count('evaluations')
+        res.count('history_calls')
+        want = expected[(sid, cid)]
+        same = (g is True) == (want is True)
+        log.append(f'{i}: {sid}.is_signed_by({cid}) -> {g} (fresh-process verdict {want}, reference {table[(sid, cid)][0]})')
+        if not same:
+            res.violation({'kind': 'channel-signature', 'why': 'verdict-depends-on-history', 'expected': bool(want is True),
+                           'objects': mode, 'pair_class': table[(sid, cid)][1], 'history': _hist_tags(seq, i)},
+                          f'call {i} of {seq}: {sid}.is_signed_by({cid}) answers {g}; the same call alone answers {want} '
+                          f'(reference ECDSA with the key of the channel passed in: {table[(sid, cid)][0]})',
+                          {'mode': 'history', 'objects': mode, 'seq': [list(x) for x in seq]})
+    return '\n'.join(log)
+
+
+def work_history(item, res):
+    _, tier, mode, first_index = item
+    claims, chans, depth = HIST_PLAN[tier]
+    world = build_history_world()
+    table = hist_reference(world)
+    calls = [(s, c) for s in claims for c in chans]
+    # single calls in fresh processes: must agree with the reference (the same-key-other-channel class may differ:
+    # whether an equal key under another claim id counts is an interpretation, only its *stability* is demanded)
+    expected = {}
+    for call in calls:
+        g = _forked(_hist_run, (world, mode, [call]))[0]
+        expected[call] = g
+        ref, cls = table[call]
+        if first_index == 0:
+            res.count('evaluations')
+            if (g is True) != ref:
+                if cls == 'same-key-other-id':
+                    res.tally('interpretation_only:same_key_other_claim_id_not_accepted')
+                else:
+                    res.violation({'kind': 'channel-signature', 'why': 'single-call-differs-from-reference',
+                                   'pair_class': cls, 'objects': mode},
+                                  f'{call[0]}.is_signed_by({call[1]}) alone answers {g}, reference {ref}',
+                                  {'mode': 'history', 'objects': mode, 'seq': [list(call)]})
+            elif cls == 'same-key-other-id' and g is True:
+                res.tally('interpretation_only:other_channel_with_same_key_accepted')
+    first = calls[first_index]
+    for rest in itertools.product(calls, repeat=depth - 1):
+        seq = [first] + list(rest)
+        got = _forked(_hist_run, (world, mode, seq))
+        res.count('executions')
+        judge_history(res, seq, mode, got, expected, table)
+        res.distinct_add('nontrivial', ('history', mode, tuple(seq)))
+        cids = [c for _, c in seq]
+        if any(_hist_root(a) == _hist_root(b) and HIST_CHANNELS[a][1] != HIST_CHANNELS[b][1] for a in cids for b in cids):
+            res.witness('validated_against_two_channel_txos_with_one_claim_id_and_different_keys')
+        if any(_hist_root(a) != _hist_root(b) and HIST_CHANNELS[a][1] == HIST_CHANNELS[b][1] for a in cids for b in cids):
+            res.witness('validated_against_two_channels_with_equal_keys')
+        if len({expected[c] is True for c in seq}) == 2:
+            res.witness('true_and_false_verdicts_in_one_history')
+    if first_index == 0 and mode == 'obj':
+        res.sample({'validation_history': {'claims': claims, 'channels': chans, 'length': depth, 'objects': mode,
+                                           'example': [list(x) for x in seq]}})
+
+
+# ---------------------------------------------------------------------------------------------------------
 # driver
 # ---------------------------------------------------------------------------------------------------------
 
@@ -1083,6 +1477,12 @@ def run(ctx):
     n_main = sighash.selftest([bytes.fromhex(p[k]) for p in fx['pairs'] for k in ('stream_tx_hex', 'channel_tx_hex')])
     assert n_main == 6, f'reference validation on main-net inputs: {n_main}/6 verified'
     ctx.res.witness('reference_validated_on_mainnet_inputs', n_main)
+    from refs import btc_tx, secp256k1 as ec
+    tl = btc_tx.decode(bytes.fromhex(fx['mainnet_timelock_spend']['raw_hex']))
+    redeem = sighash.tokens(tl['inputs'][0]['script'])[2][1]
+    assert sighash.verify_p2sh_timelock_input(tl, 0, sighash.p2sh_script(sighash.hash160(redeem)), ec)['ok'], \
+        'reference does not verify the real main-net time-lock spend'
+    ctx.res.witness('reference_validated_on_mainnet_time_lock_spend')
     key_cache()
     tier = ctx.tier
     wallets = ['W1'] if ctx.quick else ['W1', 'W2', 'W3', 'W4']
@@ -1108,7 +1508,13 @@ def run(ctx):
     csweep_items = [('csweep', 'c_hd0', lo, lo + 128, bit_bytes) for lo in range(0, csweep_n, 128)]
     fixture_items = [('fixture', i, bit_bytes) for i in range(len(fx['pairs']))]
     flow_items = [('flow', fl, w) for fl in FLOWS for w in (['W1'] if ctx.quick else ['W1', 'W2'])]
-    ctx.pmap(_dispatch, signed_items + fixture_items + items + sweep_items + csweep_items + flow_items
+    tl_items = []
+    for w in (['W1'] if ctx.quick else ['W1', 'W2']):
+        total = len(timelock_cases(w, tier, _n_slots(w)))
+        tl_items += [('timelock', w, tier, lo, min(lo + 40, total)) for lo in range(0, total, 40)]
+    n_calls = len(HIST_PLAN[tier][0]) * len(HIST_PLAN[tier][1])
+    hist_items = [('history', tier, mode, i) for mode in ('obj', 'wire') for i in range(n_calls)]
+    ctx.pmap(_dispatch, hist_items + tl_items + signed_items + fixture_items + items + sweep_items + csweep_items + flow_items
              + [('pinned',)])
     ctx.meta.update(
         rule=('inputs: per wallet every tuple of spent-output kinds (6 kinds incl. 4 KiB claims) of length 1..N x every '
@@ -1120,11 +1526,18 @@ def run(ctx):
               'first-input variant with every single-bit mutation of signature, channel id, first-input txid/index, format '
               'flag, message (every bit of the first B bytes, two bits per byte after), input swap, every other channel, '
               'every bit of the channel key, placeholder signature; three main-net fixtures with the same mutations; five '
-              'complete wallet flows.  Distinct non-trivial = distinct (kind tuple, key slots, outputs, version, locktime, '
+              'complete wallet flows.  Time locks: BIP65 pay-to-script-hash outputs (one lock height per script-number width, keys '
+              'incl. leading-zero ones) spent through Transaction.spend_time_lock + sign(extra_keys), and hand-built alone / '
+              'mixed with p2pkh and claim inputs / two locks; judged with the redeem script as script code.  Validation '
+              'histories: every sequence of L is_signed_by calls over (signed object, channel txo) pairs where channel txos '
+              'share a claim id with different keys (rotation), share a key under different ids, or are unrelated - each '
+              'sequence in its own forked process, on reused objects and on freshly parsed ones; every answer must equal '
+              'the answer of that call alone, which must equal the reference verdict.  Distinct non-trivial = distinct (kind tuple, key slots, outputs, version, locktime, '
               'sequence, re-sign, amount) input cases + distinct (object, mutated field, byte offset) + distinct signed '
               'objects / channel swaps / flows.'),
         exhaustive=True,
-        bounds={'max_inputs': 2 if ctx.quick else 4, 'wallets': wallets, 'message_bytes_with_every_bit_flipped': bit_bytes,
+        bounds={'time_lock_heights': TIMELOCK_HEIGHTS[tier], 'validation_history_plan': list(HIST_PLAN[tier]),
+                'max_inputs': 2 if ctx.quick else 4, 'wallets': wallets, 'message_bytes_with_every_bit_flipped': bit_bytes,
                 'amount_sweep': sweep_n, 'signed_counter_sweep': csweep_n, 'signers': signers},
         assumptions=[
             'refs/secp256k1, refs/sighash (on refs/btc_tx) and refs/bip32 are written from SEC1/SEC2, BIP66, BIP32 and the '
@@ -1136,6 +1549,10 @@ def run(ctx):
             'a different channel = a channel with a different public key; same key under another claim id is tallied',
             'legacy v1 signatures bind the claim address instead of the first input: first-input mutations are tallied there',
             'exceptions from is_signed_by / parsing a mutated object count as refusal',
+            'time locks: script code of a pay-to-script-hash input = the redeem script (BIP16); reference validated on the '
+            'real main-net time-lock spend e4668811...; lock time / sequence finality of spend_time_lock is tallied only',
+            'validation histories: hidden state is anything that survives between calls in one process; every sequence '
+            'runs in a forked child so sequences cannot influence each other and replays are exact',
         ],
         expected_witnesses=['pubkey_with_leading_zero_byte_signed', 'private_key_with_leading_zero_byte_signed',
                             'r_with_leading_zero_byte', 's_with_leading_zero_byte', 'r_needs_der_padding_byte',
@@ -1144,7 +1561,12 @@ def run(ctx):
                             'compact_signature_s_with_leading_zero_byte', 'channel_pubkey_with_leading_zero_byte',
                             'legacy_v1_format_fixture', 'channel_with_der_encoded_public_key', 'empty_message_signed',
                             'signature_pinned_by_upstream_test_verifies_under_reference_digest',
-                            'wallet_flow_signed_by_channel_validates_after_input_signing'],
+                            'wallet_flow_signed_by_channel_validates_after_input_signing',
+                            'reference_validated_on_mainnet_time_lock_spend', 'time_locked_script_hash_input_verified',
+                            'time_locked_input_mixed_with_ordinary_inputs', 'lock_height_script_number_of_5_bytes',
+                            'time_lock_key_pubkey_with_leading_zero_byte',
+                            'validated_against_two_channel_txos_with_one_claim_id_and_different_keys',
+                            'validated_against_two_channels_with_equal_keys', 'true_and_false_verdicts_in_one_history'],
     )
 
 
@@ -1164,6 +1586,10 @@ def _dispatch(item, res):
         work_flow(item, res)
     elif kind == 'pinned':
         work_pinned(item, res)
+    elif kind == 'timelock':
+        work_timelock(item, res)
+    elif kind == 'history':
+        work_history(item, res)
     else:
         raise ValueError(kind)
 
@@ -1220,6 +1646,20 @@ def replay(data):
         work_flow(('flow', data['flow'], data['w']), res)
     elif mode == 'pinned':
         work_pinned(('pinned',), res)
+    elif mode == 'timelock':
+        with SignH(data['w'], res) as h:
+            log = run_timelock_case(h, data, res) or ''
+    elif mode == 'history':
+        world = build_history_world()
+        table = hist_reference(world)
+        seq = [tuple(x) for x in data['seq']]
+        expected = {c: _forked(_hist_run, (world, data['objects'], [c]))[0] for c in set(seq)}
+        got = _forked(_hist_run, (world, data['objects'], seq))
+        log = judge_history(res, seq, data['objects'], got, expected, table)
+        for c in set(seq):
+            if (expected[c] is True) != table[c][0] and table[c][1] != 'same-key-other-id':
+                res.violation({'kind': 'channel-signature', 'why': 'single-call-differs-from-reference'},
+                              f'{c[0]}.is_signed_by({c[1]}) alone answers {expected[c]}, reference {table[c][0]}', data)
     else:
         raise ValueError(f'unknown replay mode {mode!r}')
     for v in res.violations.values():
